@@ -288,7 +288,7 @@ class ImplRaised(Exception):
     pass
 
 
-def run_learn(case, *, patched=None, next_shift: float = 0.0):
+def run_learn(case, *, next_shift: float = 0.0):
     """build a fresh agent, run the real learn, return (records by group, critic values, rollout-path values)"""
     vh = hooks()
     agent = build_agent(case)
@@ -335,7 +335,6 @@ def analyse_group(case, gid, members, gae, rows, boot, roll_path):
     gamma, lam = Fr(case["gamma"]), Fr(case["lam"])
     problems: list[str] = []
     gl = {a: case["ids"].index(a) for a in members}        # global agent index (in the provenance codes)
-    col = lambda ai, e: ai * E + e
 
     # ---- inputs as fed, in the (T, C) layout of the loop
     r = [[Fr(case["r"][members[c // E]][t][c % E]) for c in range(C)] for t in range(T)]
@@ -722,7 +721,12 @@ def probe_bootstrap(chk: Check, rng: random.Random, n_learn: int, report: bool =
                     chk.notes.append(f"bootstrap probe: {kind} mutation raised {type(e).__name__}; stage skipped")
                 continue
             check(f"after-{kind}-mutation", ag)
-            agents.learn_once(ag, "PPO", "vector", seed=seed + 99, n=8)
+            try:
+                agents.learn_once(ag, "PPO", "vector", seed=seed + 99, n=8)
+            except Exception as e:                        # noqa: BLE001 - learning a mutated net is C02/C03's subject
+                if report:
+                    chk.notes.append(f"bootstrap probe: learn after {kind} mutation raised {type(e).__name__}; skipped")
+                continue
             check(f"after-{kind}-mutation+learn", ag)
     if report:
         chk.suite("ppo-bootstrap", cases, len(found))
@@ -742,7 +746,7 @@ def structured_cases(rng: random.Random, tier: str):
         ("IPPO", 1, 1, ID_SETS[0], True), ("IPPO", 1, 2, ID_SETS[1], True),
     ]:
         cases.append(gen_case(rng, algo, T, E, ids, exact=True, vec=vec))
-    n_rand = 200 if tier == "quick" else 4000
+    n_rand = 200 if tier == "quick" else 2000
     for _ in range(n_rand):
         algo = "IPPO" if rng.random() < 0.6 else "PPO"
         T = rng.choice([1, 2, 2, 3, 3, 4, 5, 6])
